@@ -1,6 +1,6 @@
 (** C04 -- built-in operators compute exactly their documented mathematical maps. *)
 From Coq Require Import List Bool Arith ZArith QArith Qcanon.
-From SV Require Import LinAlg.Mat LinAlg.CQ LinAlg.CQExpr C04.Arr C04.Models C04.Theorems.
+From SV Require Import LinAlg.Mat LinAlg.CQ LinAlg.CQExpr C04.Arr C04.Models C04.Theorems C04.Dense C04.FDLink.
 Import ListNotations.
 Local Open Scope nat_scope.
 
@@ -43,6 +43,22 @@ Proof.
   - now apply (fd_last_append1 K k0 ksub kopp).
 Qed.
 Print Assumptions C04_fd_boundary_rows.
+
+(** The dense matrix that the harness compares with the implementation acts exactly as the
+    sparse rows of the model say (every output entry = sum of coefficient * input entry). *)
+Theorem C04_dense_model_acts_as_rows :
+  forall (n : nat) (R : crows) (x : cvec), length x = n ->
+    Forall (fun r => Forall (fun p => snd p < n) r) R -> c_mv (c_dense n R) x = c_apply R x.
+Proof. exact dense_acts. Qed.
+Print Assumptions C04_dense_model_acts_as_rows.
+
+(** ... and the finite-difference rows are the reference semantics [fd1] (whose entries are the
+    documented banded matrices above), for every length, boundary option and row. *)
+Theorem C04_fd_stencil_row_is_fd1_entry :
+  forall pre apd circ (x : cvec) i, x <> [] -> S i < length (ext pre apd circ x) ->
+    c_apply_row (zrow (fd_stencil pre apd circ (length x) i)) x = nth i (fd1 CQ c0 csub pre apd circ x) c0.
+Proof. exact fd_stencil_row_is_fd1_entry. Qed.
+Print Assumptions C04_fd_stencil_row_is_fd1_entry.
 
 (** row-major indexing is consistent: ravel (unravel k) = k *)
 Theorem C04_ravel_unravel : forall s k, k < size s -> ravel s (unravel s k) = k.
